@@ -184,7 +184,7 @@ func genC05Harness(u *PkgUnit, minL int) (int, error) {
 			for i, v := range valids {
 				fmt.Fprintf(&sb, "\t\t\t\t\t\tif !%s && pe.Parameter == %q {\n\t\t\t\t\t\t\tnamed = true\n\t\t\t\t\t\t}\n", v, names[i])
 			}
-			sb.WriteString("\t\t\t\t\t} else {\n\t\t\t\t\t\tother = true\n\t\t\t\t\t}\n\t\t\t\t} else {\n\t\t\t\t\tpathErr = true\n\t\t\t\t}\n\t\t\t}\n")
+			fmt.Fprintf(&sb, "\t\t\t\t\t} else {\n\t\t\t\t\t\tother = true\n\t\t\t\t\t}\n\t\t\t\t} else if strings.Contains(e%d.Error(), \"wrong path\") {\n\t\t\t\t\tpathErr = true\n\t\t\t\t} else {\n\t\t\t\t\tother = true\n\t\t\t\t}\n\t\t\t}\n", in.idx)
 			fmt.Fprintf(&sb, "\t\t\tif %s {\n\t\t\t\tvrt.Assert(!pathErr, \"Parse failed on the path although every path segment is in its type's lexical space\")\n\t\t\t\tif e%d == nil {\n\t\t\t\t\tvrt.Reach(\"parsed-ok\")\n%s\t\t\t\t}\n\t\t\t} else {\n", strings.Join(valids, " && "), in.idx, strings.ReplaceAll(checks, "\t\t\t\t", "\t\t\t\t\t"))
 			fmt.Fprintf(&sb, "\t\t\t\tvrt.Assert(e%d != nil, \"Parse succeeded although a path segment is empty or outside its type's lexical space\")\n", in.idx)
 			sb.WriteString("\t\t\t\tif !other {\n\t\t\t\t\tvrt.Assert(named, \"Parse error does not name a failing path parameter\")\n\t\t\t\t}\n\t\t\t}\n")
